@@ -15,4 +15,5 @@ CONSTANTS
 INIT Init
 NEXT Next
 CHECK_DEADLOCK TRUE
-INVARIANTS AtMostOnce AllRunAtEnd AccountingZeroAtQuiescence CountersSane NoError
+INVARIANTS AtMostOnce AllRunAtEnd AccountingZeroAtQuiescence CountersSane NoError AbsInv
+PROPERTY Refines
